@@ -365,6 +365,18 @@ def inject_and_finish(w0, kind, target, label, payload, src=None):
     if not ep.alive:
         return [('loop-exit:%s' % ep.dead_reason[0],
                  '%s left main_loop: %s' % (ep.dead_reason[0], ep.dead_reason[1][:200]))], lines
+    if kind == 'kevent':
+        # ... and nothing else happens for a while: whatever the odd kernel event left behind, every timer of the daemon
+        # (retransmission, liveness, rekey) gets its turn without taking the daemon down
+        idle = w.fork()
+        for k in range(130):
+            idle.step(('tick', 1.0))
+            for d in list(idle.net):
+                idle.step(('deliver', d.id))
+            e = idle.endpoints[target]
+            if not e.alive:
+                return [('loop-exit-later:%s' % e.dead_reason[0], '%s left main_loop %d s after the kernel event: %s' % (
+                    e.dead_reason[0], k + 1, e.dead_reason[1][:200]))], lines
     finish_session(w)
     probs = healthy(w)
     if not probs:
